@@ -20,7 +20,7 @@ def version_value(op, tag=''):
     return SegStr([('lit', op), ('dec', M), ('lit', '.'), ('dec', m), ('lit', '.'), ('dec', p)]), (M, m, p)
 
 
-def body_statements(b, strlen):
+def body_statements(b, strlen, rich=False):
     v = b.var
     msg = sol.SizedStr(strlen, z3.BitVec('strchars', 64))
     return [
@@ -35,6 +35,13 @@ def body_statements(b, strlen):
         b.expr_stmt(b.call(b.member(b.index(v('bal'), v('c')), 'div'), [v('c'), b.string('division by zero'), v('d')])),
         b.expr_stmt(b.call(b.member(v('a'), 'mul'), [])),
         b.expr_stmt(b.call(b.member(b.call(b.member(v('a'), 'add'), [v('c')]), 'sub'), [v('d'), b.string('nested')])),
+    ] + [
+        # a call site as the left and as the right operand of EVERY binary operator and as the operand of every prefix operator: wherever an
+        # expression can stand, a call site in it counts
+        b.expr_stmt(b.bin(op, b.call(b.member(v('l'), 'mul'), [v('c')]), b.call(b.member(v('r'), 'div'), [v('c')]))) for op in (sol.BINOPS if rich else ())
+    ] + [
+        b.expr_stmt(b.un(op, b.call(b.member(v('u'), 'sub'), [v('c')]))) for op in (sol.PREFIX if rich else ())
+    ] + [
         b.expr_stmt(b.member(v('a'), 'add')),
         b.expr_stmt(b.call(v('require'), [b.bin('More', v('a'), v('c')), b.string(msg)])),
         b.expr_stmt(b.call(v('require'), [b.bin('More', v('a'), v('c'))])),
@@ -45,7 +52,7 @@ def body_statements(b, strlen):
     ]
 
 
-def make_file(b, op, placement, using, strlen, tag=''):
+def make_file(b, op, placement, using, strlen, tag='', rich=False):
     value, ver = version_value(op, tag)
     sp = b.pragma('solidity', value)
     ex = lambda: b.pragma('experimental', 'ABIEncoderV2')
@@ -64,7 +71,7 @@ def make_file(b, op, placement, using, strlen, tag=''):
         cparts.append(b.using('SafeMath', b.ty('Uint', 256)))
     elif using == 'two_others':
         cparts += [b.using('SafeERC20', b.var('IERC20')), b.using('SafeCast', b.ty('Uint', 256))]
-    cparts.append(fam.fn_def(b, body_statements(b, strlen)))
+    cparts.append(fam.fn_def(b, body_statements(b, strlen, rich)))
     c = fam.contract_with(b, cparts)
     fparts = [b.supart(b.using(lib, b.ty('Uint', 256)))] if using == 'file' else ([b.supart(b.using('Strings', b.ty('Uint', 256)))] if using == 'file_other_contract_safemath' else [])
     pre = {'only': [sp], 'experimental_before': [ex(), sp], 'abicoder_before': [ab(), sp], 'both_before': [ex(), ab(), sp],
@@ -84,7 +91,8 @@ def job(chk, items):
         for d in DETECTORS:
             b = sol.TreeBuilder()
             strlen = z3.BitVec('strlen', 64)
-            su, ver = make_file(b, op, placement, using, strlen)
+            # the operator-rich body (a call site under every binary / prefix operator) in one of the files; the others keep the short body
+            su, ver = make_file(b, op, placement, using, strlen, rich=(placement == 'only' and using == 'contract' and op == '>='))
             M, m, p = ver
             sc = z3.BitVec('strchars', 64)
             base = [M >= 0, m >= 0, p >= 0, M < bound, m < bound, p < bound, z3.ULE(strlen, 40), z3.ULE(sc, strlen), z3.ULE(strlen, 2 * sc)]
